@@ -9,6 +9,7 @@ use crate::reg::Reg;
 #[cfg(feature = "c08")] pub mod c08;
 #[cfg(feature = "c10")] pub mod c10;
 #[cfg(feature = "c05")] pub mod c05;
+#[cfg(feature = "c13")] pub mod c13;
 
 pub fn register(prop: &str, reg: &mut Reg) {
     match prop {
@@ -20,6 +21,7 @@ pub fn register(prop: &str, reg: &mut Reg) {
         #[cfg(feature = "c08")] "C08" => c08::register(reg),
         #[cfg(feature = "c10")] "C10" => c10::register(reg),
         #[cfg(feature = "c05")] "C05" => c05::register(reg),
+        #[cfg(feature = "c13")] "C13" => c13::register(reg),
         _ => { eprintln!("symx: property {} not available in this build", prop); std::process::exit(2); }
     }
 }
